@@ -1,6 +1,6 @@
 (* C11: executable model of security/counter.go = the BV interpreter applied to
    the freshly translated method bodies (Gen/GenCounter.v). *)
-From NV Require Import Lib.Base Lib.BV Gen.GenCounter.
+From NV Require Import Lib.Base Lib.BV Gen.GenCounter C11.Equiv.
 From Coq Require Import String.
 Open Scope N_scope.
 
@@ -10,10 +10,10 @@ Fixpoint assoc {A} (k : string) (l : list (string * A)) : option A :=
   | (k', v) :: t => if String.eqb k k' then Some v else assoc k t
   end.
 
-Definition cmethods (m : string) : option (list stmt) := assoc m counter_methods.
+Definition cmethods : string -> option (list stmt) := lk1 counter_methods.
 
-(* counter.go does not call GetBitMask *)
-Definition no_mask : expr := EUnknown.
+(* counter.go does not call GetBitMask (any closed expression will do as its body) *)
+Definition no_mask : expr := EConst U8 0.
 
 Definition cstate (c : N) : st := mkst 0 0 [] c.
 
@@ -23,6 +23,30 @@ Definition run (m : string) (c : N) (args : list N) : outcome (N * retv) :=
   | None => Panic
   | Some b =>
       r <- exec no_mask cmethods 3 (cstate c) args [] b ;;
+      Ok (s_cnt (fst r), snd r)
+  end.
+
+(* PINNED copy of the translated methods (with the number of scalar parameters): the counter laws are
+   proved on these; Proofs.v shows (kernel-evaluated, on every run) that the methods translated from
+   the current source are equivalent to them expression by expression (C11/Equiv.v), so a rewrite of
+   counter.go into equivalent bit operations re-proves nothing and breaks nothing *)
+Definition pinned_methods : mtable :=
+[ ("maskTo24Bits"%string, (0%nat, [SSetFld FCount (EBin OAnd U32 (EFld FCount) (EConst U32 16777215))]));
+  ("Set"%string, (2%nat, [SCallM "SetOverflow"%string [(EParam 0 U16)]; SCallM "SetSQN"%string [(EParam 1 U8)]]));
+  ("Get"%string, (0%nat, [SCallM "maskTo24Bits"%string []; SRet (EFld FCount)]));
+  ("AddOne"%string, (0%nat, [SSetFld FCount (EBin OAdd U32 (EFld FCount) (EConst U32 1)); SCallM "maskTo24Bits"%string []]));
+  ("SQN"%string, (0%nat, [SRet (ECast U8 (EBin OAnd U32 (EFld FCount) (EConst U32 255)))]));
+  ("SetSQN"%string, (1%nat, [SSetFld FCount (EBin OOr U32 (EBin OAnd U32 (EFld FCount) (EConst U32 4294967040)) (ECast U32 (EParam 0 U8)))]));
+  ("Overflow"%string, (0%nat, [SRet (ECast U16 (EBin OShr U32 (EBin OAnd U32 (EFld FCount) (EConst U32 16776960)) (EConst U64 8)))]));
+  ("SetOverflow"%string, (1%nat, [SSetFld FCount (EBin OOr U32 (EBin OAnd U32 (EFld FCount) (EConst U32 4278190335)) (EBin OShl U32 (ECast U32 (EParam 0 U16)) (EConst U64 8)))])) ].
+
+Definition pmethods : string -> option (list stmt) := lk2 pinned_methods.
+
+Definition run_p (m : string) (c : N) (args : list N) : outcome (N * retv) :=
+  match pmethods m with
+  | None => Panic
+  | Some b =>
+      r <- exec no_mask pmethods 3 (cstate c) args [] b ;;
       Ok (s_cnt (fst r), snd r)
   end.
 
